@@ -169,3 +169,21 @@ pub static B7_DEF: Def = Def {
     ],
 };
 corpus_impl!(B7, bytes, B7_DEF, |t| match t { B7::Comment => 1, B7::Newline => 2, B7::Word => 3 }, |_e| 0, |_x| (0, true, 0, 0));
+
+// ---- B8: self-loops over one contiguous range touching 0x00 / 0xFF (a single comparison suffices to test membership)
+#[derive(Logos, Debug, PartialEq, Clone, Copy)]
+#[logos(utf8 = false)]
+pub enum B8 {
+    #[regex("(?-u)[\\x00-\\x20]+")] Ctl,
+    #[regex("(?-u)[\\x80-\\xff]+")] High,
+    #[regex("(?-u)[\\x21-\\x7f]")] Other,
+}
+pub static B8_DEF: Def = Def {
+    name: "B8", utf8: false, decide: no_callbacks, log_callbacks: false, default_err: plain_default,
+    pats: &[
+        Pat { p: P::Plus(&P::Class(&[(0x00, 0x20)])), prio: 2, act: Act::Tok(1) },
+        Pat { p: P::Plus(&P::Class(&[(0x80, 0xFF)])), prio: 2, act: Act::Tok(2) },
+        Pat { p: P::Class(&[(0x21, 0x7F)]), prio: 2, act: Act::Tok(3) },
+    ],
+};
+corpus_impl!(B8, bytes, B8_DEF, |t| match t { B8::Ctl => 1, B8::High => 2, B8::Other => 3 }, |_e| 0, |_x| (0, true, 0, 0));
